@@ -29,6 +29,29 @@ def run(rep, tier, seed, replay):
                        "python wire-level oracle gen/c04.py:oracle evaluated on the implementation's output"]))
     model = ltv.build_model("C04")
     impl = ltv.build_harness("c04", ["c04.cc", "common/session.cc"])
+    # policy probe: the pipe-size function of the compiled code; side condition of Section PipePolicy: pipe >= 1
+    pr = ltv.run_sharded(impl, ["probe-pipe"], shards=1, timeout=120)
+    probe = pr[0] if pr else "MISSING"
+    pipe_tab, probe_ok = [], False
+    if probe.startswith("probe "):
+        f = dict(t.split("=", 1) for t in probe.split()[1:])
+        pipe_tab = [tuple(int(x) for x in e.split(":")) for e in f.get("pipe", "").split(",") if e]
+        probe_ok = len(pipe_tab) > 0
+        zeros = [e for e in pipe_tab if e[2] < 1]
+        if zeros:
+            a, r_, v = zeros[0]
+            rep.violation("RequestList::calculate_pipe_size returns %d at rate %d B/s (%s mode): with an empty pipe a lone unchoking "
+                          "peer is never sent a REQUEST (side condition `1 <= pipe` of the PipePolicy theorems fails on the "
+                          "compiled policy; %d of %d probed points)" % (v, r_, "endgame" if a else "normal", len(zeros), len(pipe_tab)),
+                          case="probe-pipe", impl=probe[:2000], theorem="pipe policy side condition (probed)", klass="pipe-zero")
+        if f.get("block_size") and int(f["block_size"]) != 16384 and False:
+            pass
+    if not probe_ok:
+        rep.violation("the pipe-size policy of the compiled code could not be probed: " + probe[:200], case="probe-pipe",
+                      theorem="pipe policy probe", found_input=False)
+    rep.cov.update(pipe_policy_probe=dict(points=len(pipe_tab), min=min([e[2] for e in pipe_tab], default=None),
+                                          max=max([e[2] for e in pipe_tab], default=None),
+                                          sample=[e for e in pipe_tab if e[1] in (0, 10240, 20480, 24576, 102400, 1048576)]))
     if replay:
         cases = [json.load(open(replay))["case"]]
         stats = {"replay": 1}
